@@ -23,6 +23,8 @@ def run(rep, idx, tier):
     rep.require("C05.8", 3)
     rep.require("C05.9", 3)
     rep.require("C05.10", 2)
+    from .c19 import identity_comparisons
+    identity_comparisons(rep, idx, rule="C05.10", classes=["Multiplexer"])
     from . import glue as _g
     _g.reset_discipline(rep, "C05.10", idx, ["csr/bus:Multiplexer", "csr/bus:Multiplexer._Shadow.Chunk"])
     c = get_ctx(idx, "csr:Multiplexer.elaborate")
